@@ -332,3 +332,38 @@ def forward_calls(body, local, through=None):
                         holders.add(c.dest[0])
                         changed = True
     return hits
+
+
+def zero_read_leaves_loop(b, c):
+    """for a count-returning read call `c` that sits in a loop: is there a test of the call's OWN count (a copy of the Ok payload,
+    not a sum derived from it) against zero whose zero edge cannot come back to the call?"""
+    from .facts import op_const
+    rl, _ = result_local(b, c)
+    hold = set(copies_of(b, rl))
+    for x in b.calls:
+        if re.search(r"\bTry>?::branch$", x.orig_name or x.name) and x.args and op_local(x.args[0]) in hold:
+            hold |= set(copies_of(b, x.dest[0]))
+    counts = set()
+    for i, j, st in b.stmts():
+        r = st["r"]
+        if r["k"] == "Use" and r["o"][0]["k"] in ("cp", "mv"):
+            pp = r["o"][0]["p"]
+            if pp[0] in hold and any(isinstance(e, dict) and e.get("d") in ("Ok", "Continue") for e in pp[1:]):
+                counts |= set(copies_of(b, st["p"][0]))
+    for i, j, st in b.stmts():
+        r = st["r"]
+        if r["k"] == "Bin" and r["op"] in ("Eq", "Ne", "Gt", "Le"):
+            ls = [op_local(o) for o in r["o"]]
+            cs = [op_const(o) for o in r["o"]]
+            if any(l in counts for l in ls if l is not None) and any(v == 0 for v in cs if v is not None):
+                for (sbb, tt, ft) in bool_switches(b, st["p"][0]):
+                    zero_edge = tt if r["op"] in ("Eq", "Le") else ft
+                    if c.bb not in b.reachable([zero_edge]):
+                        return True
+    for bi, blk in enumerate(b.blocks):
+        t = blk["t"]
+        if t["k"] == "Switch" and op_local(t["d"]) in counts:
+            for vv, tg in t["v"]:
+                if int(vv) == 0 and c.bb not in b.reachable([tg]):
+                    return True
+    return False
